@@ -150,6 +150,37 @@ def replay_sector(ctx):
     ctx.log(f'{len(behaviours)} TLC-simulated behaviours of Sector.tla replayed on real objects: {tally}')
 
 
+def qnum_traces(ptn, rng, n):
+    """calls of qnumber_flatten / qnumber_outer_sum / is_qsparse on random leg charges and random tensors"""
+    out = []
+    for _ in range(n):
+        k = int(rng.integers(1, 5))
+        qs = [[int(x) for x in rng.integers(-2, 3, size=int(rng.integers(1, 4)))] for _ in range(k)]
+        tr = []
+        try:
+            qa = [np.array(q) for q in qs]
+            tr.append(dict(ev='flatten', qs=qs, out=[int(x) for x in ptn.qnumber_flatten(qa)]))
+            T = np.asarray(ptn.qnumber_outer_sum(qa))
+            tr.append(dict(ev='outer', qs=qs, flat=[int(x) for x in T.reshape(-1)], shape=[int(x) for x in T.shape]))
+            mask = np.zeros(T.shape, dtype=bool)
+            mode = int(rng.integers(3))
+            if mode == 0:        # sparse by construction
+                mask = (T == 0) & (rng.random(T.shape) < 0.7)
+            elif mode == 1:      # one entry possibly off the allowed positions
+                mask = (T == 0) & (rng.random(T.shape) < 0.5)
+                mask[tuple(int(rng.integers(d)) for d in T.shape)] = True
+            else:
+                mask = rng.random(T.shape) < 0.3
+            A = np.where(mask, rng.normal(size=T.shape) + (1j * rng.normal(size=T.shape) if rng.random() < 0.5 else 0), 0)
+            A = np.where(mask & (A == 0), 1.0, A)
+            tr.append(dict(ev='sparse', qs=qs, support=[[int(i) + 1 for i in idx] for idx in np.argwhere(A != 0)],
+                           res=bool(ptn.is_qsparse(A, qa))))
+        except BaseException as ex:  # noqa
+            tr.append(dict(ev='raise', exc=f'{type(ex).__name__}: {str(ex)[:60]}'))
+        out.append(tr)
+    return out
+
+
 def run(ctx):
     ptn = common.import_repo()
     rng = np.random.default_rng(ctx.seed * 53 + 2)
@@ -163,6 +194,11 @@ def run(ctx):
               expect_violation='NeverRaised')
     if ctx.replay is None:
         replay_sector(ctx)
+        # the charge algebra every block-sparse routine rests on (spec-level conformance: QNum.tla)
+        ctx.model('QNum', 'm_qnum', constants=dict(MAXD=2, MAXLEGS=3), defs=dict(QALPH='{-1,0,1}'),
+                  invariants=['FuseAssoc', 'FuseLen', 'FuseNeg', 'MatricizeOK'])
+        qt = qnum_traces(ptn, rng, ctx.pick(300, 6000))
+        validate_chunks(ctx, 'TraceQNum', 'tqn', qt, chunk=ctx.pick(300, 3000))
     seeds = [ctx.replay['replay']['seed']] if ctx.replay is not None else [int(x) for x in rng.integers(1 << 30, size=ctx.pick(700, 16000))]
     traces = pmap(_hist, [(s, ctx.quick) for s in seeds])
     for s, t02 in zip(seeds, traces):
